@@ -125,7 +125,9 @@ var perturbations = []perturbation{
 		starts := tokenStartLines(s)
 		lines := strings.Split(string(s), "\n")
 		for i, l := range lines {
-			lineCom := func(j int) bool { return j >= 0 && j < len(lines) && strings.HasPrefix(strings.TrimSpace(lines[j]), "//") }
+			lineCom := func(j int) bool {
+				return j >= 0 && j < len(lines) && strings.HasPrefix(strings.TrimSpace(lines[j]), "//")
+			}
 			simple := !strings.Contains(string(s), "`") && !strings.Contains(string(s), "/*")
 			if l == "" && i > 0 && i+1 < len(lines) && (starts[i] || simple && lineCom(i-1)) && (starts[i+2] || simple && lineCom(i+1)) {
 				lines[i] = []string{" ", "\t", "  \t "}[r.Intn(3)]
